@@ -410,28 +410,13 @@ pub fn program_job(name: &str, n: usize) -> Stats {
 }
 
 fn program_section(b: &Bounds, names: &[&str]) -> Stats {
-    let n = b.prog_n;
-    par_map(names.len(), ncpu().min(6), |i| {
-        let name = names[i];
-        match crate::jobs::spawn_job(&json!({"job": "c36prog", "program": name, "n": n})) {
-            Ok(r) => {
-                for l in r.lines {
-                    println!("{l}");
-                }
-                r.stats
-            }
-            Err(crash) => {
-                let mut st = Stats::new();
-                st.eval();
-                st.violation(
-                    format!("C36/prog/{name}/simulator-crash"),
-                    format!("program {name}: the simulator process died while exploring the program's schedules: {crash}"),
-                    json!({"section": "crash", "program": name, "n": n}),
-                );
-                st
-            }
-        }
-    })
+    // the last program is known to bring the simulator down on the unchanged tree: alone
+    let specs: Vec<Value> = names.iter().map(|n| json!({"program": n, "n": b.prog_n, "solo": *n == "batch_and_hooked_fold_snapshot"})).collect();
+    let (st, lines) = crate::jobs::run_programs("c36prog", &specs, "C36/prog");
+    for l in lines {
+        println!("{l}");
+    }
+    st
 }
 
 pub fn run(rep: &mut Report) {
@@ -522,16 +507,7 @@ pub fn replay(case: &Value) -> bool {
             println!("replay: program {name} ({}): verdict {:?}\n  decisions {:?}\n  tick outputs {:?}", e.inputs, run.verdict, run.decisions, run.obs);
             judge_run(&e, &run)
         }
-        "crash" => {
-            let name = case["program"].as_str().unwrap();
-            match crate::jobs::spawn_job(&json!({"job": "c36prog", "program": name, "n": case["n"]})) {
-                Ok(r) => {
-                    println!("replay: the child process explored program {name} without dying ({} executions)", r.stats.evaluations);
-                    if r.stats.violations.is_empty() { Ok(()) } else { Err(Problem { class: "other", text: r.stats.violations[0].what.clone() }) }
-                }
-                Err(crash) => Err(Problem { class: "simulator-crash", text: crash }),
-            }
-        }
+        "crash" => return crate::jobs::replay_crash(case),
         other => {
             println!("unknown replay section {other}");
             return false;
